@@ -1139,8 +1139,11 @@ func (g *gen) addExamples(m *Message) {
 		case f.Kind == KString:
 			ex = []string{"alpha", "beta gamma", "δ"}
 		case f.Kind.IsInt():
-			ex = []string{"7", "42"}
-			if g.oneIn(3, "badex") {
+			if f.Kind != KInt64 && f.Kind != KInt32 && g.avoid("mock_examples_unhandled_kinds") {
+				continue
+			}
+			ex = []string{"7", "13"}
+			if g.oneIn(3, "badex") && !g.avoid("mock_unparsable_example_default") {
 				ex = append([]string{"not-a-number"}, ex...)
 			}
 		case f.Kind.IsFloat():
